@@ -162,6 +162,31 @@ def run_ddsmt(workdir, input_text, spec, opts=(), entry='launcher',
     return r
 
 
+_calib = None
+
+
+def calibrate():
+    """Wall time of one small complete ddSMT run on this machine right now
+    (measured once per check).  "Did not finish" is judged against a generous
+    multiple of it, so that a loaded machine never looks like a hang."""
+    global _calib
+    if _calib is None:
+        import corpus
+        wd = common.subscratch('calibrate')
+        t0 = time.time()
+        run_ddsmt(wd, corpus.FLAT, {'mode': 'contains',
+                                    'markers': ['check-sat', '3']},
+                  ['--strategy', 'hybrid', '-j', '2'], entry='module',
+                  timeout=1800)
+        _calib = time.time() - t0
+    return _calib
+
+
+def time_limit(base):
+    """`base` seconds on an idle machine, scaled up under load."""
+    return int(base + 25 * calibrate())
+
+
 def rerun_command(r, path, cc=False):
     """Run the scripted command (or the cross-check command) once on `path`;
     returns (exit, stdout, stderr)."""
